@@ -248,6 +248,13 @@ VARIANTS = [
     V( 'reserved-guard-dropped', DOT, "if mine in self.__invalid_keys__ or mine.startswith( '__' ):", "if mine.startswith( '__' ):", fires=[ 'T-RESERVED' ] ),
     V( 'contains-bypasses-getitem', DOT, "try:\n self.__getitem__( key )\n return True\n except KeyError:\n return False", "return dict.__contains__( self, key )", fires=[ 'D-DELEGATE' ] ),
     V( 'cmp-le-raw', TIMES, "def __le__( self, rhs ):\n return not self.__gt__( rhs )", "def __le__( self, rhs ):\n        return self.value <= rhs.value", fires=[ 'T-CMP' ] ),
+    V( 'cmp-eq-spelled-with-abs', TIMES, "def __eq__( self, rhs ):\n return not self.__ne__( rhs )", "def __eq__( self, rhs ):\n        return not ( self < rhs ) and not ( rhs < self )", silent=[ 'T-CMP' ] ),
+    V( 'cmp-lt-at-epsilon', TIMES, "return self.value + self.__class__._epsilon < rhs.value", "return self.value + self.__class__._epsilon <= rhs.value", fires=[ 'T-CMP' ] ),
+    V( 'cmp-ge-by-value', TIMES, "def __ge__( self, rhs ):\n return not self.__lt__( rhs )", "def __ge__( self, rhs ):\n        return self.__gt__( rhs ) or self.value == rhs.value", fires=[ 'T-CMP' ] ),
+    V( 'cmp-eq-ne-circular', TIMES, "return self.__lt__( rhs ) or self.__gt__( rhs )", "return not self.__eq__( rhs )", fires=[ 'T-CMP' ] ),
+    V( 'number-micros-scaled-by-multiplication', TIMES, "return calendar.timegm( dt.utctimetuple() ) + dt.microsecond / 1000000", "return calendar.timegm( dt.utctimetuple() ) + dt.microsecond * 1e-6", silent=[ 'T-RENDER' ] ),
+    V( 'number-from-local-tuple', TIMES, "return calendar.timegm( dt.utctimetuple() ) + dt.microsecond / 1000000", "return calendar.timegm( dt.timetuple() ) + dt.microsecond / 1000000", fires=[ 'T-RENDER' ] ),
+    V( 'number-millis-fraction', TIMES, "return calendar.timegm( dt.utctimetuple() ) + dt.microsecond / 1000000", "return calendar.timegm( dt.utctimetuple() ) + dt.microsecond / 1000", fires=[ 'T-RENDER' ] ),
     V( 'cmp-epsilon-literal', TIMES, "_epsilon = 10**-_precision", "_epsilon			= 0.01", fires=[ 'T-CMP' ] ),
     V( 'duration-week-as-day', TIMES, "+ cls.WK * int( durmatch.group( 'w' ) or '0' )", "+ cls.WK * int( durmatch.group( 'd' ) or '0' )", fires=[ 'T-DURATION' ] ),
     V( 'duration-hours-from-days', TIMES, "hours = d_secs // cls.HR", "hours			= w_secs // cls.HR", fires=[ 'T-DURATION' ] ),
